@@ -424,6 +424,23 @@ func parseHyphenRange(rangeStr string) ([]*constraint, error) {
 		return nil, fmt.Errorf("invalid end version in hyphen range: %s", end)
 	}
 
+	// A partial end version includes everything that starts with the given
+	// parts: 1.0 - 2.0 is equivalent to >=1.0.0 <2.1, 1.0 - 2 to >=1.0.0 <3.0
+	if given := len(strings.Split(strings.TrimPrefix(end, "v"), ".")); given < 3 && !endVersion.isDev && endVersion.stability == stabilityStable {
+		upperVersionStr := fmt.Sprintf("%d.%d.0", endVersion.major, endVersion.minor+1)
+		if given == 1 {
+			upperVersionStr = fmt.Sprintf("%d.0.0", endVersion.major+1)
+		}
+		upperVersion, err := e.NewVersion(upperVersionStr)
+		if err != nil {
+			return nil, err
+		}
+		return []*constraint{
+			{operator: ">=", version: startVersion},
+			{operator: "<", version: upperVersion},
+		}, nil
+	}
+
 	return []*constraint{
 		{operator: ">=", version: startVersion},
 		{operator: "<=", version: endVersion},
